@@ -379,7 +379,7 @@ func vTanCheck(l *LogDB, m *vTanNode, tag string) {
 
 // C09 (Tan, regular and multiplexed): after any sequence of saves, removals
 // and close/reopen the store reports the logical log, for both replicas.
-//vcheck: props=C04 reach=overwrite,snapshot,remove-entries,remove-node,reopened,done workers=16 steps=3000000
+//vcheck: reach=overwrite,snapshot,remove-entries,remove-node,reopened,done workers=16 steps=3000000
 func VHarness_C09_TanModel() {
 	env := vNewTanEnv()
 	l, err := env.open()
